@@ -656,7 +656,7 @@ def r4(ctx):
             for t in af.tests(lambda e: norm_text(e) == "self.remaining"):
                 tb, fb = af.branch(t, "true"), af.branch(t, "false")
                 # bytes remain -> every path raises DecodeError; nothing remains -> no raise reachable
-                if raises and ag.all_paths_pass(tb.id, [ag.exit.id, ag.raise_exit.id], [r.id for r in raises], None) and not any(ag.exists_path(fb.id, r.id) for r in raises):
+                if raises and ag.exit.id not in ag.reachable(tb.id, labels=NONEXC) and any(r.id in ag.reachable(tb.id, labels=NONEXC) for r in raises) and not any(ag.exists_path(fb.id, r.id) for r in raises):
                     ok = True
         ctx.check(ok, "C03.R4", f"comms.{cname}.assert_complete", cm, fn, "raises DecodeError exactly when bytes remain", "different")
 
@@ -756,7 +756,7 @@ def r6(ctx):
         ok = kw.get("message_length") in (f"{hdr}.message_length - _SUB_HEADER_STRUCT.size", f"{hdr}.message_length - 2") and kw.get("message_id") == f"_SUB_HEADER_STRUCT.unpack_from({f.params[1]})[0]" or (kw.get("message_length") == f"{hdr}.message_length - _SUB_HEADER_STRUCT.size" and "message_id" in kw)
         ctx.check(ok, R, f"{gen}:ExtendedMessageDecoder:sub-length", m, f.node, "sub-header length = header.message_length - sub-header size", str(kw))
         decs = _local_decode_calls(f)
-        ok = len(decs) == 1 and norm_text(decs[0][1].args[0]) == f"{f.params[1]}[_SUB_HEADER_STRUCT.size:]"
+        ok = len(decs) == 1 and f.expand_text(decs[0][1].args[0], decs[0][0]) == f"{f.params[1]}[_SUB_HEADER_STRUCT.size:]"
         ctx.check(ok, R, f"{gen}:ExtendedMessageDecoder:sub-buffer", m, f.node, "the sub-decoder gets the bytes after the sub-header", norm_text(decs[0][1]) if decs else "")
         e = Fn(ctx.repo, m, "ExtendedMessageEncoder.encode")
         cons = e.calls("ExtendedMessageSubHeader")
@@ -798,7 +798,7 @@ def r6(ctx):
     ok = kw == {"sub_message_id": want[0], "non_repeat_length": want[1], "repeat_count": want[3], "repeat_length": want[2]}
     ctx.check(ok, R, "at5:ControlStatusEncoder:sub-header-object", m, enc.node, "the sub-header object handed to the sub-encoder carries the same four values", str(kw))
     decs = _local_decode_calls(dec)
-    ok = len(decs) == 1 and norm_text(decs[0][1].args[0]) == f"{dec.params[1]}[_SUB_HEADER_STRUCT.size:]"
+    ok = len(decs) == 1 and dec.expand_text(decs[0][1].args[0], decs[0][0]) == f"{dec.params[1]}[_SUB_HEADER_STRUCT.size:]"
     ctx.check(ok, R, "at5:ControlStatusDecoder:sub-buffer", m, dec.node, "the sub-decoder gets the bytes after the 8-byte sub-header", norm_text(decs[0][1]) if decs else "")
     # stride decoders hand back what is left after count * stride (assert_complete then catches trailing bytes)
     for mod, cls in (("xC021_zone_status", "ZoneStatusDecoder"), ("xC023_ac_status", "AcStatusDecoder"), ("xC033_ac_timer_status", "AcTimerStatusDecoder"), ("xC020_zone_ctrl", "ZoneControlDecoder"), ("xC022_ac_ctrl", "AcControlDecoder")):
